@@ -214,8 +214,43 @@ func checkC16(c *Ctx, n int) {
 	}
 }
 
+// declaredEnvKeys: for every option with an env tag, the environment key the DECLARATION gives it — the
+// env-namespaces of all enclosing groups and commands, outermost first, joined by the parser's delimiter
+// — computed by walking the tree downwards (not by asking the option).
+func declaredEnvKeys(p *flags.Parser) map[*flags.Option]string {
+	out := map[*flags.Option]string{}
+	var walkGroup func(g *flags.Group, parts []string)
+	walkGroup = func(g *flags.Group, parts []string) {
+		for _, o := range g.Options() {
+			if o.EnvDefaultKey != "" {
+				out[o] = strings.Join(append(append([]string{}, parts...), o.EnvDefaultKey), p.EnvNamespaceDelimiter)
+			}
+		}
+		for _, sg := range g.Groups() {
+			ps := parts
+			if sg.EnvNamespace != "" {
+				ps = append(append([]string{}, parts...), sg.EnvNamespace)
+			}
+			walkGroup(sg, ps)
+		}
+	}
+	var walkCmd func(cmd *flags.Command, parts []string)
+	walkCmd = func(cmd *flags.Command, parts []string) {
+		if cmd.Group.EnvNamespace != "" {
+			parts = append(append([]string{}, parts...), cmd.Group.EnvNamespace)
+		}
+		walkGroup(cmd.Group, parts)
+		for _, sub := range cmd.Commands() {
+			walkCmd(sub, parts)
+		}
+	}
+	walkCmd(p.Command, nil)
+	return out
+}
+
 func scanInterface(c *Ctx, cr *CaseResult, which, text string, vis, hid []*flags.Option) {
 	manText := strings.ReplaceAll(text, "\\\\", "\\")
+	envKeys := declaredEnvKeys(cr.Real.p)
 	in := func(o *flags.Option) map[string]interface{} {
 		return map[string]interface{}{"case": cr.Case.Description, "generator": which, "option": o.String() + " field " + o.Field().Name, "case_file": c.saveCase(cr)}
 	}
@@ -267,6 +302,30 @@ func scanInterface(c *Ctx, cr *CaseResult, which, text string, vis, hid []*flags
 				c.Check("description-and-default-are-shown-as-declared", false, "C16:description-garbled", m, "absent (blanks and hyphens apart): "+want, "shown")
 			} else {
 				c.Check("description-and-default-are-shown-as-declared", true, "", nil, "", "")
+			}
+		}
+		if key := envKeys[o]; key != "" && utf8.ValidString(key) && !strings.ContainsAny(key, "%\\-") {
+			// the environment variable, with the env-namespaces of all enclosing levels: in the help beside
+			// a description, in the man page wherever a default is shown
+			switch {
+			case which == "help" && o.Description != "":
+				want := "[$" + key + "]"
+				ok := strings.Contains(squashAll(text), squashAll(want))
+				m := map[string]interface{}(nil)
+				if !ok {
+					m = in(o)
+					m["declared_env_key"] = key
+				}
+				c.Check("environment-variable-is-shown-with-its-namespaces", ok, "C16:env-key", m, "absent: "+want, "shown beside the description")
+			case which == "man" && len(o.Default) == 0 && o.DefaultMask == "":
+				want := "$" + key
+				ok := strings.Contains(text, want) || strings.Contains(manText, want)
+				m := map[string]interface{}(nil)
+				if !ok {
+					m = in(o)
+					m["declared_env_key"] = key
+				}
+				c.Check("environment-variable-is-shown-with-its-namespaces", ok, "C16:env-key", m, "absent: "+want, "shown as the default")
 			}
 		}
 		if o.DefaultMask != "" {
